@@ -130,7 +130,9 @@ func c03Par(mode int, n int) {
 	body := func(key string) *Lambda {
 		return InvokableLambda(func(ctx context.Context, in map[string]any) (map[string]any, error) {
 			vyield()
-			counts[key]++ // executions are serialised by the cooperative scheduler of the engine
+			vMu.Lock()
+			counts[key]++
+			vMu.Unlock()
 			return map[string]any{key: vsymUF("f_"+key, vFold(in))}, nil
 		})
 	}
